@@ -618,6 +618,28 @@ def u_sm9(ctx, u):
     vals = [('valid', x, y), ('valid-negated', x, (p9 - y) % p9), ('x>=p', p9 + 5, y), ('y>=p', x, p9), ('zero-zero', 0, 0),
             ('y+1', x, (y + 1) % p9), ('x+1', (x + 1) % p9, y), ('all-ff', (1 << 256) - 1, (1 << 256) - 1),
             ('random', rng.randrange(1 << 256), rng.randrange(1 << 256))]
+    # a valid point with one coordinate replaced by coordinate + p (it still fits into 32 octets for about 29% of the field): on
+    # the curve once reduced, but not a coordinate below the prime
+    room = (1 << 256) - p9
+    for want in ('x', 'y'):
+        for _ in range(60):
+            hx, hy = S9.g1_mul(rng.randrange(1, S9.N), S9.P1)
+            if (hx if want == 'x' else hy) < room:
+                vals.append(('x+p', hx + p9, hy) if want == 'x' else ('y+p', hx, hy + p9))
+                break
+    q_valid = S9.g2_mul(rng.randrange(1, S9.N), S9.P2)
+    g2_valid_oct = S9.g2_bytes(q_valid)
+
+    def key_container(fn, size_name, der, valid, what, name):
+        kb = ctx.buf(L[size_name], fill=0x5A)
+        db = ctx.inbuf(der)
+        dp, dl = ctypes.c_void_p(db.ptr), ctypes.c_size_t(len(der))
+        ctx.begin([what, name])
+        r = getattr(lib, fn)(kb, ctypes.byref(dp), ctypes.byref(dl))
+        ctx.check((r == 1) if valid else (r != 1), 'sm9:%s:%s' % (fn, 'valid-refused' if valid else 'accepted-invalid-point:' + name), ret=r)
+        ctx.nontrivial(what, name)
+        kb.free()
+        db.free()
     for name, a, b in vals:
         valid = a < p9 and b < p9 and S9.g1_on_curve((a, b))
         octs = b'\x04' + b32(a) + b32(b)
@@ -660,18 +682,32 @@ def u_sm9(ctx, u):
         ctx.nontrivial('sm9-ct', name, a, b)
         cb.free()
         c1.free()
+        # the same octets as the encryption master public key and as the G1 half of a user's signing key
+        key_container('sm9_enc_master_public_key_from_der', 'sizeof_SM9_ENC_MASTER_KEY', X.seq(X.bitstring(octs)), valid, 'sm9-mpk-enc', name)
+        key_container('sm9_sign_key_from_der', 'sizeof_SM9_SIGN_KEY', X.seq(X.bitstring(octs), X.bitstring(g2_valid_oct)), valid, 'sm9-sign-key', name)
     # G2 (twist) points
     q = S9.g2_mul(rng.randrange(1, S9.N), S9.P2)
     (x0, x1), (y0, y1) = q     # x = x0 + x1*u ; serialised high coefficient first
     def g2oct(xx, yy):
         return b'\x04' + b32(xx[1]) + b32(xx[0]) + b32(yy[1]) + b32(yy[0])
-    ref_oct = b'\x04' + S9.g2_bytes(q)
+    ref_oct = S9.g2_bytes(q)
     tv = [('valid', (x0, x1), (y0, y1)), ('y0+1', (x0, x1), ((y0 + 1) % p9, y1)), ('x1>=p', (x0, p9 + 1), (y0, y1)),
           ('zero', (0, 0), (0, 0)), ('swapped-coeffs', (x1, x0), (y1, y0))]
+    for _ in range(200):
+        (a0, a1), (b0, b1) = S9.g2_mul(rng.randrange(1, S9.N), S9.P2)
+        small = [i for i, c in enumerate((a0, a1, b0, b1)) if c < room]
+        if small:
+            i = rng.choice(small)
+            cs = [a0, a1, b0, b1]
+            cs[i] += p9
+            tv.append(('coefficient-%d+p' % i, (cs[0], cs[1]), (cs[2], cs[3])))
+            if len(tv) >= 8:
+                break
+    g1_valid_oct = b'\x04' + b32(x) + b32(y)
     for name, xx, yy in tv:
         octs = g2oct(xx, yy)
         if name == 'valid' and octs != ref_oct:
-            ctx.stat('info_g2_serialisation_order_differs_from_model')
+            ctx.check(False, 'harness:g2-serialisation-differs-from-model')
             break
         valid = all(c < p9 for c in xx + yy) and S9.g2_on_curve((xx, yy))
         pb = ctx.buf(L['sizeof_SM9_Z256_TWIST_POINT'], fill=0x5A)
@@ -685,6 +721,8 @@ def u_sm9(ctx, u):
         ctx.nontrivial('sm9-g2', name, xx, yy)
         pb.free()
         ib.free()
+        key_container('sm9_sign_master_public_key_from_der', 'sizeof_SM9_SIGN_MASTER_KEY', X.seq(X.bitstring(octs)), valid, 'sm9-mpk-sign', name)
+        key_container('sm9_enc_key_from_der', 'sizeof_SM9_ENC_KEY', X.seq(X.bitstring(octs), X.bitstring(g1_valid_oct)), valid, 'sm9-enc-key', name)
     ctx.sample({'kind': 'sm9', 'g1_values': [v[0] for v in vals]})
 
 
